@@ -37,6 +37,16 @@ Allowed(role, a, b) == <<a, b>> \in Graph(role) \/ b = "Error"
 (* event kinds: rep, sent (handshake control frame), sentclose (connectionClose frame), sentdata (SPINE data   *)
 (* frame), close (CloseDataConnection call), closed (HandleConnectionClosed), setup, id, deliver; every v is a  *)
 (* string                                                                                                       *)
+(* a "Par" step: two entry points of the connection called at the same time - act = [a |-> "Par", c1, c2] with            *)
+(* ci = [k, m, id]: k in Inject / Timeout / Approve / Cancel / Close / ConnErr; an Inject is always c1                     *)
+IsPar(act) == act.a = "Par"
+HasCall(act, k) == IsPar(act) /\ (act.c1.k = k \/ act.c2.k = k)
+Approves(act) == act.a = "Approve" \/ HasCall(act, "Approve")
+InjectsData(act) == \/ (act.a \in {"Inject", "Deliver"} /\ act.m = "data")
+                    \/ (IsPar(act) /\ act.c1.k = "Inject" /\ act.c1.m = "data")
+ActId(act) == IF IsPar(act) THEN (IF act.c1.k = "Inject" THEN act.c1.id ELSE "") ELSE act.id
+ActM(act)  == IF IsPar(act) THEN act.c1.k \o "+" \o act.c2.k ELSE act.m
+
 (* accumulator carried along one connection's history *)
 Acc0(role, trusted) ==
     [ last |-> "InitStart", term |-> FALSE, closed |-> FALSE, trust |-> (trusted \/ role = "client"),
@@ -66,14 +76,14 @@ OnEvent(role, stored, act, a, e, bad) ==
       [] e.k = "setup" ->
             LET b1 == IF ~a.trust THEN bad \cup {<<"C01", "setup-untrusted", a.last>>} ELSE bad
                 b2 == IF a.nSetup >= 1 THEN b1 \cup {<<"C03", "setup-twice", a.last>>} ELSE b1
-                b3 == IF stored # "none" /\ act.id # stored
-                      THEN b2 \cup {<<"C09", "setup-on-id-mismatch", stored, act.id>>} ELSE b2
+                b3 == IF stored # "none" /\ ActId(act) # stored
+                      THEN b2 \cup {<<"C09", "setup-on-id-mismatch", stored, ActId(act)>>} ELSE b2
                 b4 == IF stored = "none" /\ a.nIds # 1
                       THEN b3 \cup {<<"C09", "setup-without-single-id-report", a.nIds>>} ELSE b3
             IN  [acc |-> [a EXCEPT !.nSetup = Cap2(@ + 1)], bad |-> b4]
       [] e.k = "id" ->
             LET b1 == IF a.nIds >= 1 THEN bad \cup {<<"C09", "id-reported-twice", e.v>>} ELSE bad
-                b2 == IF e.v # act.id THEN b1 \cup {<<"C09", "reported-id-not-presented-id", e.v, act.id>>} ELSE b1
+                b2 == IF e.v # ActId(act) THEN b1 \cup {<<"C09", "reported-id-not-presented-id", e.v, ActId(act)>>} ELSE b1
                 b3 == IF a.nSetup >= 1 THEN b2 \cup {<<"C09", "id-reported-after-setup", e.v>>} ELSE b2
             IN  [acc |-> [a EXCEPT !.nIds = Cap2(@ + 1)], bad |-> b3]
       [] e.k = "deliver" ->
@@ -94,14 +104,14 @@ Walk(role, stored, act, a, evs, bad) ==
 (* act: [a, m, id]; ob: [st, tRun, wsOpen, buf, ev, panicked, hung]                                *)
 (* returns [acc, bad] after one environment action                                              *)
 JudgeStep(role, stored, act, acc, ob) ==
-    LET a0 == [acc EXCEPT !.trust = @ \/ act.a = "Approve",
-                          !.inj = IF act.a \in {"Inject", "Deliver"} /\ act.m = "data" THEN Append(@, act.id) ELSE @]
+    LET a0 == [acc EXCEPT !.trust = @ \/ Approves(act),
+                          !.inj = IF InjectsData(act) THEN Append(@, ActId(act)) ELSE @]
         w  == Walk(role, stored, act, a0, ob.ev, {})
         a1 == [w.acc EXCEPT !.dead = @ \/ ob.panicked \/ ob.hung]
         b1 == IF ob.st \in PostHello /\ ~a1.trust THEN w.bad \cup {<<"C01", "posthello-untrusted-state", ob.st>>} ELSE w.bad
         b2 == IF (a1.term \/ a1.closed) /\ ob.tRun THEN b1 \cup {<<"C04", "timer-armed-after-final", a1.last, ob.st>>} ELSE b1
-        b3 == IF ob.panicked THEN b2 \cup {<<"C08", "panic", acc.last, act.a, act.m>>} ELSE b2
-        b4 == IF ob.hung THEN b3 \cup {<<"C08", "hang", acc.last, act.a, act.m>>} ELSE b3
+        b3 == IF ob.panicked THEN b2 \cup {<<"C08", "panic", acc.last, act.a, ActM(act)>>} ELSE b2
+        b4 == IF ob.hung THEN b3 \cup {<<"C08", "hang", acc.last, act.a, ActM(act)>>} ELSE b3
         b5 == IF ~ob.panicked /\ ~ob.hung /\ a1.compl /\ ob.wsOpen /\ ~a1.closed /\ a1.del # a1.inj
               THEN b4 \cup {<<"C06", "payload-not-delivered", Len(a1.del), Len(a1.inj)>>} ELSE b4
         b6 == IF act.a = "Sleep" /\ ~ob.wsOpen /\ a1.nClosed = 0 /\ ~a1.dead
